@@ -573,6 +573,11 @@ impl Runner for R {
                 let (Ok(ns), Some(i)) = (ns.parse::<u16>(), ident_from(k, v)) else { return bad() };
                 let n = NodeId { namespace: ns, identifier: i };
                 let class = format!("nodeid-{}", kind_tag(&n.identifier));
+                // the second public printer, `impl Into<String> for NodeId`, must be the same text
+                let via_into: String = n.clone().into();
+                if via_into != n.to_string() {
+                    return ("wrapper".into(), Verdict::fail("wrapper", &class, format!("Into<String> gives {:?}, Display {:?}", via_into, n.to_string())));
+                }
                 rt_line(n.to_string(), NodeId::from_str, &n, node_out, ident_in_domain(&n.identifier), &class)
             }
             ["rt", "ident", k, v] => {
@@ -656,6 +661,14 @@ impl Runner for R {
             }
             ["parse", "range", s] => {
                 let Some(s) = sunhex(s) else { return bad() };
+                // the second public parser, `NumericRange::new`, must agree with `from_str`
+                let a = catch_unwind(AssertUnwindSafe(|| NumericRange::new(s.clone()).ok().map(|r| nr_out(&r))));
+                let b2 = catch_unwind(AssertUnwindSafe(|| NumericRange::from_str(&s).ok().map(|r| nr_out(&r))));
+                if let (Ok(a), Ok(b2)) = (&a, &b2) {
+                    if a != b2 {
+                        return ("wrapper".into(), Verdict::fail("wrapper", "parse-range", format!("new() gives {:?}, from_str {:?}", a, b2)));
+                    }
+                }
                 parse_line(&s, NumericRange::from_str, nr_out, "parse-range")
             }
             ["parse", "dt", s] => {
